@@ -601,6 +601,9 @@ func (s *Seq) genPlan(r *simrt.Rand, nq int) []Probe {
 		q := g.query(false)
 		plan = append(plan, Probe{Kind: "search", Q: q, Mode: modes[r.Intn(len(modes))], Limit: s.genLimit(r)})
 	}
+	for i := 0; i < 3; i++ {
+		plan = append(plan, Probe{Kind: "search", Q: &Query{First: s.genBadCmp(r)}, Mode: "collect"})
+	}
 	for _, p := range paths {
 		if s.Cfg.Cons[p].Indexed() {
 			plan = append(plan, Probe{Kind: "assignindex", Path: p})
@@ -662,4 +665,43 @@ func (s *Seq) fullSweep(ctx string) {
 	plan := s.genPlan(s.prng.Fork(2), 8)
 	s.runPlan(plan, "", ctx)
 	s.checkLayout(ctx)
+}
+
+// genBadCmp draws a comparison with exactly one defect: unknown field,
+// unknown operator, mistyped / unsupported value, or invalid pattern.
+func (s *Seq) genBadCmp(r *simrt.Rand) Cmp {
+	all := shapes.RecPaths
+	path := all[r.Intn(len(all))]
+	if cons := s.M.ConsPaths(); len(cons) > 0 && r.Bool() {
+		path = cons[r.Intn(len(cons))]
+	}
+	good := GenProbe(r, s.Pools, path)
+	isStr := typeOfPath(path) == "string"
+	switch r.Intn(5) {
+	case 0:
+		f := []string{"Nope", "In.Nope", "S.x", "P.Nope.N", "", "emb.E", "P", "In", "Emb", "Tags", "M", "L", "I8.x.y"}[r.Intn(13)]
+		return Cmp{Path: f, Op: "=", V: Val{T: "string", S: "a"}}
+	case 1:
+		return Cmp{Path: path, Op: []string{"<>", "==", "", "=<", "like"}[r.Intn(5)], V: good}
+	case 2:
+		if isStr {
+			return Cmp{Path: path, Op: "=", V: []Val{{T: "int", I: 1}, {T: "uint64", U: 1}, {T: "float64", F: 1}, {T: "time", I: 5}}[r.Intn(4)]}
+		}
+		alts := []Val{{T: "string", S: "1"}}
+		switch good.T {
+		case "time", "int", "int8", "int16", "int32", "int64":
+			alts = append(alts, Val{T: "uint", U: 1}, Val{T: "float64", F: 1})
+		case "float32", "float64":
+			alts = append(alts, Val{T: "int", I: 1}, Val{T: "uint8", U: 1})
+		default:
+			alts = append(alts, Val{T: "int", I: 1}, Val{T: "float32", F: 1}, Val{T: "time", I: 1})
+		}
+		return Cmp{Path: path, Op: []string{"=", "<", ">="}[r.Intn(3)], V: alts[r.Intn(len(alts))]}
+	case 3:
+		return Cmp{Path: path, Op: "=", V: []Val{{T: "nil"}, {T: "bytes", S: "ab"}, {T: "bool", I: 1}}[r.Intn(3)]}
+	}
+	if !isStr {
+		path = "S"
+	}
+	return Cmp{Path: path, Op: "~=", V: Val{T: "string", S: []string{"(", "[a", "a{2,1}", "(?P<n"}[r.Intn(4)]}}
 }
